@@ -859,6 +859,8 @@ class StructVal:
             i += 1
             if ch == 's':
                 self.items.append(('s', int(cnt or '1')))
+            elif ch == 'x':
+                self.items.append(('x', int(cnt or '1')))
             elif ch in _FMT:
                 for _ in range(int(cnt or '1')):
                     self.items.append((ch,) + _FMT[ch])
@@ -880,11 +882,15 @@ class StructVal:
 
     def pack(self, it, args):
         _used('struct.Struct.pack')
-        if len(args) != len(self.items):
+        if len(args) != len([x for x in self.items if x[0] != 'x']):
             it.throw('struct.error', f'pack expected {len(self.items)} items')
         segs = []
-        for item, v in zip(self.items, args):
-            v = unbox(v)
+        args = list(args)
+        for item in self.items:
+            if item[0] == 'x':          # pad bytes: zeros, no argument
+                segs.append(Lit(b'\x00' * item[1]))
+                continue
+            v = unbox(args.pop(0))
             if item[0] == 's':
                 r = to_rope(it, v)
                 if not it.ctx.valid(r.length() == item[1]):
@@ -929,6 +935,9 @@ class StructVal:
         out = []
         pos = ot
         for item in self.items:
+            if item[0] == 'x':          # pad bytes: skipped, no value
+                pos = pos + item[1]
+                continue
             if item[0] == 's':
                 from .interp import SliceVal
                 out.append(rope_slice(it, r, SliceVal(sym_int(pos), sym_int(pos + item[1]), None)))
